@@ -9,15 +9,23 @@ fn pipeline_fwd(op: &Op, ctx: &dyn Context, operands: &mut dyn CoordinateSet) ->
     // (e.g. the Z of a `cart | helmert | cart inv` pipeline) would be truncated
     // to the dimensionality of the user's container between the steps
     let mut buffer: Vec<Coor4D> = (0..operands.len()).map(|i| operands.get_coord(i)).collect();
-    let n = steps_fwd(op, ctx, &mut buffer);
+    let mut stack = Vec::new();
+    let n = steps_fwd(op, ctx, &mut buffer, &mut stack);
     for (i, c) in buffer.iter().enumerate() {
         operands.set_coord(i, c);
     }
     n
 }
 
-fn steps_fwd(op: &Op, ctx: &dyn Context, operands: &mut dyn CoordinateSet) -> usize {
-    let mut stack = Vec::new();
+// The stack belongs to the outermost pipeline: A step which is itself a pipeline
+// (i.e. a macro with a pipeline body) works on the stack of its caller, so that
+// the macro means the same as its expansion
+fn steps_fwd(
+    op: &Op,
+    ctx: &dyn Context,
+    operands: &mut dyn CoordinateSet,
+    stack: &mut Vec<Vec<f64>>,
+) -> usize {
     let mut n = usize::MAX;
     for step in &op.steps {
         if step.params.boolean("omit_fwd") {
@@ -29,13 +37,14 @@ fn steps_fwd(op: &Op, ctx: &dyn Context, operands: &mut dyn CoordinateSet) -> us
         // (`inv` on the step, or on the macro it stems from) is taken care of here
         let m = match (stack_kind(step), step.descriptor.inverted) {
             ("push", false) | ("pop", true) => {
-                do_the_push(&mut stack, operands, &step.params.boolean)
+                do_the_push(stack, operands, &step.params.boolean)
             }
             ("pop", false) | ("push", true) => {
-                do_the_pop(&mut stack, operands, &step.params.boolean)
+                do_the_pop(stack, operands, &step.params.boolean)
             }
-            ("stack", false) => stack_fwd(&mut stack, operands, &step.params),
-            ("stack", true) => stack_inv(&mut stack, operands, &step.params),
+            ("stack", false) => stack_fwd(stack, operands, &step.params),
+            ("stack", true) => stack_inv(stack, operands, &step.params),
+            _ if is_pipeline_step(step) => nested(step, ctx, operands, stack, true),
             _ => step.apply(ctx, operands, Fwd),
         };
         // A stack underflow invalidates all operands: Make sure later steps
@@ -54,6 +63,27 @@ fn steps_fwd(op: &Op, ctx: &dyn Context, operands: &mut dyn CoordinateSet) -> us
         n = operands.len();
     }
     n
+}
+
+// A step which is itself a pipeline is applied on the stack of its caller
+// (what `Op::apply` would do, except for the stack)
+fn nested(
+    step: &Op,
+    ctx: &dyn Context,
+    operands: &mut dyn CoordinateSet,
+    stack: &mut Vec<Vec<f64>>,
+    forward: bool,
+) -> usize {
+    let ran_fwd = step.descriptor.inverted != forward;
+    if ran_fwd {
+        steps_fwd(step, ctx, operands, stack)
+    } else {
+        steps_inv(step, ctx, operands, stack)
+    }
+}
+
+fn is_pipeline_step(step: &Op) -> bool {
+    step.params.name == "pipeline" && !step.steps.is_empty()
 }
 
 fn is_stack_step(step: &Op) -> bool {
@@ -79,15 +109,20 @@ pub(super) const STACK_MACHINE_MARKER: &str = "_stack_machine";
 fn pipeline_inv(op: &Op, ctx: &dyn Context, operands: &mut dyn CoordinateSet) -> usize {
     // Work on a full 4D copy of the operands - see pipeline_fwd
     let mut buffer: Vec<Coor4D> = (0..operands.len()).map(|i| operands.get_coord(i)).collect();
-    let n = steps_inv(op, ctx, &mut buffer);
+    let mut stack = Vec::new();
+    let n = steps_inv(op, ctx, &mut buffer, &mut stack);
     for (i, c) in buffer.iter().enumerate() {
         operands.set_coord(i, c);
     }
     n
 }
 
-fn steps_inv(op: &Op, ctx: &dyn Context, operands: &mut dyn CoordinateSet) -> usize {
-    let mut stack = Vec::new();
+fn steps_inv(
+    op: &Op,
+    ctx: &dyn Context,
+    operands: &mut dyn CoordinateSet,
+    stack: &mut Vec<Vec<f64>>,
+) -> usize {
     let mut n = usize::MAX;
     for step in op.steps.iter().rev() {
         if step.params.boolean("omit_inv") {
@@ -99,13 +134,14 @@ fn steps_inv(op: &Op, ctx: &dyn Context, operands: &mut dyn CoordinateSet) -> us
         // (and the other way round for a step that is itself inverted)
         let m = match (stack_kind(step), step.descriptor.inverted) {
             ("push", false) | ("pop", true) => {
-                do_the_pop(&mut stack, operands, &step.params.boolean)
+                do_the_pop(stack, operands, &step.params.boolean)
             }
             ("pop", false) | ("push", true) => {
-                do_the_push(&mut stack, operands, &step.params.boolean)
+                do_the_push(stack, operands, &step.params.boolean)
             }
-            ("stack", false) => stack_inv(&mut stack, operands, &step.params),
-            ("stack", true) => stack_fwd(&mut stack, operands, &step.params),
+            ("stack", false) => stack_inv(stack, operands, &step.params),
+            ("stack", true) => stack_fwd(stack, operands, &step.params),
+            _ if is_pipeline_step(step) => nested(step, ctx, operands, stack, false),
             _ => step.apply(ctx, operands, Inv),
         };
         if m == 0 && !operands.is_empty() && is_stack_step(step) {
